@@ -195,10 +195,13 @@ def gen_cfg(rng):
         slmode = rng.choice(["npa", "nst"])
     nsys = rng.randint(3, 7)
     n_nldf = rng.choice([0, 1, 2])
-    nk = rng.weighted([(1, 3), (2, 2)])
+    nk = rng.weighted([(1, 3), (2, 3), (3, 2)])
     kernels = []
+    # any number of exchange and non-exchange components, incl. none of either kind
+    # (opposite-/same-spin correlation pairs, an xc-only model, an exchange-only model)
+    first = rng.weighted([("x", 5), ("c", 1), ("xc", 1)])
     for i in range(nk):
-        comp = "x" if i == 0 else rng.choice(["c", "xc", "x"])
+        comp = first if i == 0 else rng.choice(["c", "xc", "x", "c"])
         mode = rng.choice(["SEP", "NPOL", "POL"]) if version == 1 else rng.choice(["SEP", "NPOL"])
         if comp != "x" and mode == "POL":
             # DFTKernel.Nctrl returns 2 for POL control arrays, so exchange-only reactions give
@@ -255,7 +258,8 @@ def gen_reaction(rng, cfg, ids):
         structs.append(rng.choice(structs))  # the same system may be listed twice
     counts = [rng.choice([1, -1, 2, -2, 3, 0.5]) for _ in structs]
     has_c = any(kc["component"] != "x" for kc in cfg["kernels"])
-    mode = 2 if (has_c and rng.chance(0.5)) else 0
+    # total-energy (mode 2) data may also train an exchange-only model
+    mode = 2 if rng.chance(0.5 if has_c else 0.25) else 0
     rxn = {"structs": list(structs), "counts": counts}
     if cfg["deriv"] and mode == 0 and rng.chance(0.4):
         j = rng.below(len(structs))
@@ -291,7 +295,10 @@ def gen_history(seed):
         batch, order = order[:b], order[b:]
         if rng.chance(0.2):
             batch = batch + [rng.choice(ids[: len(ids)])]
-        ops.append({"op": "store", "ids": batch, "get_correlation": bool(rng.chance(0.75))})
+        # exchange-only storing is offered for models that have an exchange component (with
+        # none there is nothing for it to compute; the documentation scopes it that way)
+        has_x = any(kc["component"] == "x" for kc in cfg["kernels"])
+        ops.append({"op": "store", "ids": batch, "get_correlation": bool(rng.chance(0.75)) or not has_x})
     nrx = 0
     for _ in range(rng.randint(3, 9)):
         c = rng.weighted([("add", 5), ("fit", 3), ("reset", 1), ("lik", 2), ("store", 1)])
